@@ -11,7 +11,7 @@ namespace Grexv
 open Expr
 
 /-- all edge labels are plain graphemes -/
-def Dfa.PlainLabels (d : Dfa) : Prop := ∀ e ∈ d.edges, ∃ s, s ≠ [] ∧ e.label = Grapheme.ofStr s
+def Dfa.PlainLabels (d : Dfa) : Prop := ∀ e ∈ d.edges, e.label.Plainish
 
 theorem indexOf?_lt (l : List Nat) (x j : Nat) (h : indexOf? l x = some j) : j < l.length ∧ l[j]? = some x := by
   simp only [indexOf?] at h
@@ -21,7 +21,7 @@ theorem indexOf?_lt (l : List Nat) (x j : Nat) (h : indexOf? l x = some j) : j <
 
 /-- one row: afterwards the cells of row `i` contain, in addition, the labels of the given edges -/
 theorem initRow_spec (cfg : Config) (N : Nat) (states : List Nat) (hlen : states.length ≤ N) (i : Nat) (hi : i < N)
-    (es : List Edge) (hes : ∀ e ∈ es, ∃ s, s ≠ [] ∧ e.label = Grapheme.ofStr s) :
+    (es : List Edge) (hes : ∀ e ∈ es, e.label.Plainish) :
     ∀ (a : Mat), a.Sq N → (∀ i j, OPlain (a.get i j)) →
       (initRow cfg states i es a).Sq N ∧ (∀ i' j', OPlain ((initRow cfg states i es a).get i' j')) ∧
       ∀ i' j' u, olang ((initRow cfg states i es a).get i' j') u ↔
@@ -30,10 +30,10 @@ theorem initRow_spec (cfg : Config) (N : Nat) (states : List Nat) (hlen : states
   | nil => intro a hsq hp; exact ⟨hsq, hp, by intro i' j' u; simp [initRow]⟩
   | cons e rest ih =>
     intro a hsq hp
-    have hrest : ∀ e ∈ rest, ∃ s, s ≠ [] ∧ e.label = Grapheme.ofStr s := fun x hx => hes x (List.mem_cons_of_mem _ hx)
-    obtain ⟨s, hs, hlab⟩ := hes e (List.mem_cons_self)
+    have hrest : ∀ e ∈ rest, e.label.Plainish := fun x hx => hes x (List.mem_cons_of_mem _ hx)
+    have hlab := hes e (List.mem_cons_self)
     have hlitp : OPlain (some (Expr.lit [e.label])) := by
-      intro g hg; simp at hg; subst hg; exact ⟨s, hs, hlab⟩
+      intro g hg; simp at hg; subst hg; exact hlab
     -- one step
     have hstep : initRow cfg states i (e :: rest) a =
         initRow cfg states i rest (match indexOf? states e.dst with
@@ -151,7 +151,7 @@ theorem initLoop_spec (cfg : Config) (d : Dfa) (hd : d.PlainLabels) (N : Nat) (s
     intro k hk st hst hp
     simp only [List.zipIdx_cons, List.foldl_cons]
     have hkN : k < N := by simp at hk; omega
-    have hes : ∀ e ∈ d.outEdges s, ∃ t, t ≠ [] ∧ e.label = Grapheme.ofStr t := by
+    have hes : ∀ e ∈ d.outEdges s, e.label.Plainish := by
       intro e he; exact hd e ((mem_outEdges d s e).mp he).1
     obtain ⟨r1, r2, r3⟩ := initRow_spec cfg N states hlen k hkN (d.outEdges s) hes st.a hst.a hp.1
     have hb1 : ∀ i, (initStep cfg d states st (s, k)).b.get i =
